@@ -103,6 +103,10 @@ def _mk(algo: str, size: int):
                 hold("stored", len(rnd.calls) == 2, "second assignment did not draw a new salt")
                 hold("stored", cfg.other.salt is rnd.calls[1][1] or cfg.other.salt == rnd.calls[1][1], "second salt")
                 hold("stored", cfg.other.salt is not dv.salt, "two assignments share one salt object")
+                cfg.pw = p          # the same secret assigned again to the SAME field
+                hold("stored", len(rnd.calls) == 3 and cfg.pw.salt is rnd.calls[2][1],
+                     "re-assigning the same secret did not draw a fresh salt")
+                cfg.pw = dv         # back to the first value for the serialisation checks below
             # serialised form
             tree = cfg.to_tree()
             leaf = tree["pw"]
